@@ -32,30 +32,6 @@ inductive J
 
 /-! ## hex, `bin2asc`, `asc2bin` -/
 
-def hexDigit (n : Nat) : Char := if n < 10 then Char.ofNat (48 + n) else Char.ofNat (87 + n)
-
-def hexVal (c : Char) : Option Nat :=
-  let n := c.toNat
-  if 48 ≤ n ∧ n ≤ 57 then some (n - 48)
-  else if 97 ≤ n ∧ n ≤ 102 then some (n - 87)
-  else if 65 ≤ n ∧ n ≤ 70 then some (n - 55)
-  else none
-
-def hexlify : List Nat → List Char
-  | [] => []
-  | b :: bs => hexDigit (b / 16 % 16) :: hexDigit (b % 16) :: hexlify bs
-
-def unhexlify : List Char → Except RErr (List Nat)
-  | [] => .ok []
-  | [_] => .error .BinasciiError
-  | a :: b :: rest =>
-    match hexVal a, hexVal b with
-    | some x, some y =>
-      match unhexlify rest with
-      | .ok r => .ok ((x * 16 + y) :: r)
-      | .error e => .error e
-    | _, _ => .error .BinasciiError
-
 /-- `ppci.utils.chunk.chunks(data, 30)` -/
 def chunks : Nat → List Nat → List (List Nat)
   | 0, _ => []
